@@ -536,24 +536,68 @@ pub fn mk_err<E: DeserializeError>(l: ValuePointerRef) -> E {
 '''
 
 
-def generate(tier, seed, count=None):
-    """returns (rust source, spec list)"""
+def type_features(sp):
+    """which documented features a catalogue entry exercises (used to attribute a build failure of that entry)"""
+    feats = set()
+    fields = list(sp.get("fields") or [])
+    for v in sp.get("variants") or []:
+        fields += v.get("fields") or []
+        if v.get("rename_all") or v["key"] != v["ident"]:
+            feats.add("rename")
+    if sp.get("rename_all"):
+        feats.add("rename")
+    if sp.get("deny"):
+        feats.add("deny")
+    if sp.get("validate") or sp.get("from") or sp.get("try_from"):
+        feats.add("conv")
+    if sp["kind"] in ("tagged_enum", "unit_enum"):
+        feats.add("enum")
+    for f in fields:
+        if f.get("key") is not None and f["key"] != f["ident"]:
+            feats.add("rename")
+        if f.get("default") or f.get("skipped") or f.get("missing_fn"):
+            feats.add("default")
+        if f.get("from") or f.get("try_from") or f.get("map") or f.get("error"):
+            feats.add("conv")
+    return feats
+
+
+def generate(tier, seed, count=None, exclude=()):
+    """returns (rust source, spec list, {type name: (first line, last line)} in the generated source)"""
     cat = base_catalogue()
     if tier == "thorough":
         cat += random_catalogue(seed, count if count is not None else 700)
     else:
         cat += random_catalogue(seed, count if count is not None else 40)
+    # entries that mention an excluded entry go too
+    excl = set(exclude)
+    changed = True
+    rendered = [(t, ) + render_type(t) for t in cat]
+    while changed:
+        changed = False
+        for t, s, sp in rendered:
+            if t.name in excl:
+                continue
+            if any(re.search(r"\b%s\b" % re.escape(x), s) for x in excl):
+                excl.add(t.name)
+                changed = True
     src = [SUPPORT]
     specs = []
-    for t in cat:
-        s, sp = render_type(t)
+    ranges = {}
+    line = SUPPORT.count("\n") + 1
+    for t, s, sp in rendered:
+        if t.name in excl:
+            continue
+        n = s.count("\n") + 1
+        ranges[t.name] = (line + 1, line + n)
+        line += n
         src.append(s)
         specs.append(sp)
-    return "\n".join(src), specs
+    return "\n".join(src), specs, ranges
 
 
 if __name__ == "__main__":
     import sys
-    src, specs = generate(sys.argv[1] if len(sys.argv) > 1 else "quick", int(sys.argv[2]) if len(sys.argv) > 2 else 0)
+    src, specs, _ = generate(sys.argv[1] if len(sys.argv) > 1 else "quick", int(sys.argv[2]) if len(sys.argv) > 2 else 0)
     print(src)
     print(json.dumps(specs, indent=1), file=sys.stderr)
